@@ -488,48 +488,62 @@ def sel_disagreements(s: dict, ob: dict) -> list[tuple[str, str]]:
     return out
 
 
-def signature(sel: dict, feat: dict, kase: dict | None, resp: dict | None, name: str, kind: str, ob: dict) -> str:
+def signature_parts(sel: dict, feat: dict, kase: dict | None, resp: dict | None, name: str, kind: str, ob: dict) -> tuple[str, list[str]]:
+    """(base, extras).  base = site + check + direction + the features that identify the failing input class; extras = features that
+    are kept in the signature only when every failure with the same base shares their value (DESIGN Appendix E: necessary features)."""
     sc = feat["sel"] if "sel" in feat else feat
     if kind == "rejected":
-        return "X01:cli:rejected:checks=%s+exclude=%s" % (sc["checks"], sc["exclude"])
+        return "X01:cli:rejected:checks=%s+exclude=%s" % (sc["checks"], sc["exclude"]), []
     if kind == "crash-early":
-        return "X01:crash:before-the-checks:%s" % ob.get("crash", "?")
+        return "X01:crash:before-the-checks:%s" % ob.get("crash", "?"), []
     special = name in (PDA, MRT, MRH, UM)
     if kind == "ran-unselected":
         cause = "excluded-by-name" if name in sel["exclude"] else "exclude=all" if "all" in sel["exclude"] else "not-selected:checks=" + sc["checks"]
-        return "X01:selection:ran-unselected:%s%s" % (cause, ":" + name if special and cause != "exclude=all" else "")
+        return "X01:selection:ran-unselected:%s%s" % (cause, ":" + name if special and cause != "exclude=all" else ""), []
     if kind == "not-run":
         cause = ("experimental-switch" if name == PDA and sel["pdaExp"] and name not in sel["checks"] and "all" not in sel["checks"]
                  else "option-given" if name in (MRT, MRH) else "checks=" + sc["checks"])
-        return "X01:selection:not-run:%s%s" % (cause, ":" + name if special else "")
+        return "X01:selection:not-run:%s%s" % (cause, ":" + name if special else ""), []
     given = {NDR: sel["ndrSt"], PDA: sel["pdaSt"], MRH: sel["mrhSt"], MRT: sel["mrt"]}
     if kind == "config" or (name in given and "cfg" in ob and ob["cfg"][name] != given[name]):
         # a verdict that differs because the configuration never reached the check is the configuration finding
         cause = "without-experimental-switch" if name == PDA and not sel["pdaExp"] else "given" if given[name] else "not-given"
-        return "X01:config:%s:%s" % (name, cause)
+        return "X01:config:%s:%s" % (name, cause), []
     assert kase is not None and resp is not None
-    parts = []
+    primary: list[str] = []
+    extras: list[str] = []
     if name == NASE:
-        parts = ["status=" + feat["status"]]
+        primary = ["status=" + feat["status"]]
     elif name == MRT:
-        parts = ["elapsed=" + feat["elapsed"]]
+        primary = ["elapsed=" + feat["elapsed"]]
     elif name in (NDR, PDA):
-        parts = ["status=" + feat["status"], "statuses=" + ("given" if given[name] else "default"),
-                 "case=" + (kase["phase"] if kase["meta"] == "gen" else "unlabelled") + "/" + kase["mode"]
-                 + ("/" + kase["cov"] if kase["phase"] == "coverage" else "") + ("/" + kase["neg"] if kase["neg"] != "-" else "")]
+        primary = ["mode=" + (kase["mode"] if kase["meta"] == "gen" else "unlabelled")]
+        extras = ["status=" + feat["status"], "statuses=" + ("given" if given[name] else "default"),
+                  "case=" + kase["phase"] + ("/" + kase["cov"] if kase["phase"] == "coverage" else "") + ("/" + kase["neg"] if kase["neg"] != "-" else "")]
     elif name == MRH:
-        parts = ["status=" + feat["status"], "case=" + kase["cov"], "statuses=" + ("given" if given[name] else "default")]
+        primary = ["case=" + (kase["cov"] if kase["phase"] == "coverage" else kase["phase"])]
+        extras = ["status=" + feat["status"], "statuses=" + ("given" if given[name] else "default")]
     elif name == UM:
-        parts = ["status=" + feat["status"], "method=" + kase["method"], "allow=" + ("yes" if resp["allow"] else "no"), "case=" + kase["cov"]]
+        primary = ["method=" + kase["method"]]
+        extras = ["case=" + (kase["cov"] if kase["phase"] == "coverage" else kase["phase"]), "status=" + feat["status"],
+                  "allow=" + ("yes" if resp["allow"] else "no")]
     elif name == IA:
         where = {"header": "header", "bearer": "header", "basic": "header", "query": "query", "cookie": "cookie"}.get(kase["sec"], "none")
-        parts = ["credential-in=" + where] + (["requirement-cleared"] if kase["decl"] == "cleared" else []) + [
-            "credentials=" + (kase["src"] if kind == "crash" or kase["src"] != "explicit-nogen" else "explicit"),
-            "answer=" + feat["status"], "without=" + feat["none"], "wrong=" + feat["wrong"]]
+        src = kase["src"] if kind == "crash" or kase["src"] != "explicit-nogen" else "explicit"
+        primary = (["credential-in=" + where] if kind != "crash" else []) + ["credentials=" + src]
+        primary += ["requirement-cleared"] if kase["decl"] == "cleared" else []
+        extras = ["answer=" + feat["status"], "without=" + feat["none"], "wrong=" + feat["wrong"]] if kind != "crash" else []
     if kind == "crash":
-        keep = [p for p in parts if not p.startswith(("without=", "wrong=", "answer=", "credential-in="))]
-        return "X01:crash:%s:%s:%s" % (name, ob.get("crash", "?"), "+".join(keep))
-    return "X01:verdict:%s:%s:%s" % (name, kind, "+".join(parts))
+        return "X01:crash:%s:%s:%s" % (name, ob.get("crash", "?"), "+".join(primary)), extras
+    return "X01:verdict:%s:%s:%s" % (name, kind, "+".join(primary)), extras
+
+
+def signature(sel: dict, feat: dict, kase: dict | None, resp: dict | None, name: str, kind: str, ob: dict, seen: dict | None = None) -> str:
+    """`seen`: base -> {extra key -> set of values among all failures of this run}; an extra whose value varies is not necessary."""
+    base, extras = signature_parts(sel, feat, kase, resp, name, kind, ob)
+    if seen is not None:
+        extras = [e for e in extras if len(seen.get(base, {}).get(e.split("=")[0], ())) <= 1]
+    return base + "".join("+" + e for e in extras)
 
 
 def _short(sel: dict, kase: dict | None, resp: dict | None) -> str:
@@ -633,6 +647,12 @@ def run(ctx: Ctx) -> Outcome:
         raise tlc.TLCFailure("judge (TLC) and driver disagree on %d verdicts - machinery inconsistency: %s" % (
             len(tlc_dis ^ py_dis), sorted(tlc_dis ^ py_dis)[:5]))
 
+    seen: dict = {}
+    for i, n, k in case_dis:
+        c = cases[i]
+        base, extras = signature_parts(c["sel"], c["feat"], c["kase"], c["resp"], n, k, case_ob[i])
+        for e in extras:
+            seen.setdefault(base, {}).setdefault(e.split("=")[0], set()).add(e)
     for i, n, k in sel_dis:
         s, ob = sels[i], sel_ob[i]
         out.violations.append(Violation(
@@ -643,7 +663,7 @@ def run(ctx: Ctx) -> Outcome:
     for i, n, k in case_dis:
         c, ob = cases[i], case_ob[i]
         out.violations.append(Violation(
-            signature(c["sel"], c["feat"], c["kase"], c["resp"], n, k, ob),
+            signature(c["sel"], c["feat"], c["kase"], c["resp"], n, k, ob, seen),
             "%s %s: expected %s observed %s (requests seen by the API: %s) for %s" % (
                 k, n, c["exp"].get(n), (ob.get("o") or {}).get(n, ob.get("error")), ob.get("wire"), _short(c["sel"], c["kase"], c["resp"])),
             {"kind": "case", "sel": c["sel"], "kase": c["kase"], "resp": c["resp"], "exp": c["exp"], "feat": c["feat"]}))
